@@ -7,14 +7,114 @@
 //!   P<h>:<k>=<v>   put through handle <h>     G<h>:<k>   get through handle <h>
 //!   R<n>      n threads race to open; report the number of successes; the winners are closed
 //!   Q<n>      n threads race to open while one thread calls destroy_database
+//!   E         start destroy_database on a thread; it parks right before it removes the LOCK file
+//!   F         let it go on; it parks right before it removes the database directory
+//!   H         let it finish and report its result
 use std::collections::HashMap;
 use std::sync::{Arc, Barrier};
 
-use raindb::fs::{FileSystem, TmpFileSystem};
+use std::io;
+use std::path::{Path, PathBuf};
+use std::sync::{Condvar, Mutex};
+use std::time::{Duration, Instant};
+
+use raindb::fs::{FileLock, FileSystem, RandomAccessFile, ReadonlyRandomAccessFile, TmpFileSystem};
 use raindb::{DbOptions, ReadOptions, WriteOptions, DB};
 
 use crate::suite_db::err_class;
 use crate::util::*;
+
+/// A disk-backed file system on which the thread named `case-lock-destroyer` parks before it
+/// removes the LOCK file (gate 1) and before it removes the database directory (gate 2).
+struct GatedFs {
+    inner: TmpFileSystem,
+    st: Mutex<(u8, u8)>, // (gate the destroyer is parked at, gates released so far)
+    cv: Condvar,
+}
+
+impl GatedFs {
+    fn park(&self, gate: u8) {
+        if std::thread::current().name() != Some("case-lock-destroyer") {
+            return;
+        }
+        let mut st = self.st.lock().unwrap();
+        st.0 = gate;
+        self.cv.notify_all();
+        let deadline = Instant::now() + Duration::from_secs(60);
+        while st.1 < gate && Instant::now() < deadline {
+            st = self.cv.wait_timeout(st, Duration::from_millis(100)).unwrap().0;
+        }
+        st.0 = 0;
+        self.cv.notify_all();
+    }
+    fn release(&self, gate: u8) {
+        let mut st = self.st.lock().unwrap();
+        st.1 = gate;
+        self.cv.notify_all();
+    }
+    fn reset(&self) {
+        *self.st.lock().unwrap() = (0, 0);
+    }
+    /// wait until the destroyer is parked at `gate` or `done` says it has finished
+    fn wait_parked(&self, gate: u8, done: &dyn Fn() -> bool) -> bool {
+        let deadline = Instant::now() + Duration::from_secs(20);
+        loop {
+            if self.st.lock().unwrap().0 == gate {
+                return true;
+            }
+            if done() || Instant::now() > deadline {
+                return false;
+            }
+            std::thread::sleep(Duration::from_micros(200));
+        }
+    }
+}
+
+impl FileSystem for GatedFs {
+    fn get_name(&self) -> String {
+        "GatedFs".to_string()
+    }
+    fn create_dir(&self, path: &Path) -> io::Result<()> {
+        self.inner.create_dir(path)
+    }
+    fn create_dir_all(&self, path: &Path) -> io::Result<()> {
+        self.inner.create_dir_all(path)
+    }
+    fn list_dir(&self, path: &Path) -> io::Result<Vec<PathBuf>> {
+        self.inner.list_dir(path)
+    }
+    fn open_file(&self, path: &Path) -> io::Result<Box<dyn ReadonlyRandomAccessFile>> {
+        self.inner.open_file(path)
+    }
+    fn rename(&self, from: &Path, to: &Path) -> io::Result<()> {
+        self.inner.rename(from, to)
+    }
+    fn create_file(&self, path: &Path, append: bool) -> io::Result<Box<dyn RandomAccessFile>> {
+        self.inner.create_file(path, append)
+    }
+    fn remove_file(&self, path: &Path) -> io::Result<()> {
+        if path.file_name().map(|n| n == "LOCK").unwrap_or(false) {
+            self.park(1);
+        }
+        self.inner.remove_file(path)
+    }
+    fn remove_dir(&self, path: &Path) -> io::Result<()> {
+        self.park(2);
+        self.inner.remove_dir(path)
+    }
+    fn remove_dir_all(&self, path: &Path) -> io::Result<()> {
+        self.inner.remove_dir_all(path)
+    }
+    fn get_file_size(&self, path: &Path) -> io::Result<u64> {
+        self.inner.get_file_size(path)
+    }
+    fn is_dir(&self, path: &Path) -> io::Result<bool> {
+        self.inner.is_dir(path)
+    }
+    fn lock_file(&self, path: &Path) -> io::Result<FileLock> {
+        self.inner.lock_file(path)
+    }
+}
 
 fn options(fs: &Arc<dyn FileSystem>) -> DbOptions {
     let mut o = DbOptions::with_memory_env();
@@ -27,7 +127,13 @@ fn options(fs: &Arc<dyn FileSystem>) -> DbOptions {
 pub fn run_lock(line: &str) -> String {
     let toks = split_nonempty(line, ' ');
     let id = toks[0];
-    let fs: Arc<dyn FileSystem> = Arc::new(TmpFileSystem::new(None));
+    let gated = Arc::new(GatedFs {
+        inner: TmpFileSystem::new(None),
+        st: Mutex::new((0, 0)),
+        cv: Condvar::new(),
+    });
+    let fs: Arc<dyn FileSystem> = Arc::clone(&gated) as Arc<dyn FileSystem>;
+    let mut destroyer: Option<std::thread::JoinHandle<bool>> = None;
     let mut handles: HashMap<String, DB> = HashMap::new();
     let mut out: Vec<String> = vec![];
     for step in &toks[1..] {
@@ -131,8 +237,49 @@ pub fn run_lock(line: &str) -> String {
                 ));
                 winners.clear();
             }
+            b'E' => {
+                if destroyer.is_some() {
+                    out.push("none".to_string());
+                } else {
+                    gated.reset();
+                    let fs2 = Arc::clone(&fs);
+                    let th = std::thread::Builder::new()
+                        .name("case-lock-destroyer".to_string())
+                        .spawn(move || DB::destroy_database(options(&fs2)).is_ok())
+                        .unwrap();
+                    if gated.wait_parked(1, &|| th.is_finished()) {
+                        destroyer = Some(th);
+                        out.push("parked".to_string());
+                    } else {
+                        out.push(if th.join().unwrap_or(false) { "ok".to_string() } else { "err".to_string() });
+                    }
+                }
+            }
+            b'F' => match destroyer.take() {
+                None => out.push("none".to_string()),
+                Some(th) => {
+                    gated.release(1);
+                    if gated.wait_parked(2, &|| th.is_finished()) {
+                        destroyer = Some(th);
+                        out.push("parked".to_string());
+                    } else {
+                        out.push(if th.join().unwrap_or(false) { "ok".to_string() } else { "err".to_string() });
+                    }
+                }
+            },
+            b'H' => match destroyer.take() {
+                None => out.push("none".to_string()),
+                Some(th) => {
+                    gated.release(2);
+                    out.push(if th.join().unwrap_or(false) { "ok".to_string() } else { "err".to_string() });
+                }
+            },
             _ => panic!("bad step {}", step),
         }
+    }
+    if let Some(th) = destroyer.take() {
+        gated.release(2);
+        let _ = th.join();
     }
     handles.clear();
     format!("{} {}", id, out.join(" "))
